@@ -20,6 +20,10 @@ class HarnessError(Exception):
     """Something is wrong with the harness itself (exit 2, never a violation)."""
 
 
+class _StopExplore(Exception):
+    """raised inside a Hypothesis test body to end the search early"""
+
+
 class Outcome:
     __slots__ = ('signature', 'detail', 'nontrivial', 'labels', 'inconclusive')
 
@@ -334,30 +338,40 @@ class Ctx:
         from hypothesis import HealthCheck, Phase, given, settings
         p = self.part(part)
         t0 = time.time()
-        state = {'stop': False}
+        state = {'stop': False, 'drawn': 0}
+        skip_minimal = self.shard > 0 and self.nshards > 1
 
         def body(case):
+            # once the search has to stop, leave Hypothesis at once (drawing the
+            # remaining examples can cost more than executing them)
             if state['stop']:
-                return
+                raise _StopExplore()
+            state['drawn'] += 1
+            if skip_minimal and state['drawn'] == 1:
+                return      # Hypothesis' first example is the all-minimal one:
+                            # only shard 0 spends an execution on it
             if time_cap is not None and time.time() - t0 > time_cap:
                 p.budget_cut = True
                 state['stop'] = True
-                return
+                raise _StopExplore()
             out = execute(case)
             if self._handle(part, case, out, execute, shrink_budget,
                             extra_candidates, reexecute_confirm):
                 state['stop'] = True
+                raise _StopExplore()
 
         sd = derive_seed(self.seed, self.prop, part, self.shard)
         phases = [Phase.generate]
         test = settings(
-            max_examples=n, database=None, deadline=None, phases=phases,
+            max_examples=n + (1 if skip_minimal else 0), database=None, deadline=None, phases=phases,
             derandomize=False, report_multiple_bugs=False,
             suppress_health_check=list(HealthCheck),
             verbosity=hypothesis.Verbosity.quiet,
         )(hypothesis.seed(sd)(given(strategy)(body)))
         try:
             test()
+        except _StopExplore:
+            pass
         except hypothesis.errors.HypothesisException as exc:
             raise HarnessError('hypothesis: %r in part %s' % (exc, part))
         p.wall += time.time() - t0
